@@ -214,7 +214,7 @@ class ActionKinds:
             return vk(UNK)
         if isinstance(e, ast.Subscript):
             base = ev(e.value)
-            ev(e.slice) if not isinstance(e.slice, ast.Slice) else None
+            iv = ev(e.slice) if not isinstance(e.slice, ast.Slice) else V()
             if isinstance(e.slice, ast.Slice) and base.known and base.kinds <= {'list', 'tuple', 'str'}:
                 # a slice has the kind of its base; it may be empty unless it is the full copy `x[:]`
                 full = e.slice.lower is None and e.slice.upper is None and e.slice.step is None
@@ -224,6 +224,12 @@ class ActionKinds:
                 proven = (base.keys is not None and k in base.keys) or k in st.get('#keys', {}).get(norm(e.value), ())
                 if not proven and sink:
                     sink('R1', e, f'`{norm(e)}`: key {k!r} is not known to be present (dict keys: {sorted(base.keys) if base.keys is not None else "open / user-supplied"})')
+            if k is None and not isinstance(e.slice, ast.Slice) and iv.known and iv.kinds <= {'str'} and iv.tok is not None and sink and isinstance(e.ctx, ast.Load):
+                # a string key computed at run time (from token text): only a mapping can be subscripted with it, and the key must be proven present
+                proven = ('#expr:' + norm(e.slice)) in st.get('#keys', {}).get(norm(e.value), ())
+                if not proven and not (base.known and base.kinds <= {'str'}):
+                    sink('R1', e, f'`{norm(e)}`: the key is a string computed from the input (`{norm(e.slice)}`); nothing proves it is a key of `{norm(e.value)}` for every '
+                                  f'spelling the lexer accepts (under re.IGNORECASE `UNİON` is the UNION token, but \'İ\'.upper() is not \'I\')')
             if 'None' in base.kinds and base.known and sink:
                 sink('R7', e, f'`{norm(e)}` subscripts a value that can be None')
             if norm(e.value) == f'{pvar}._slice' and isinstance(e.slice, ast.Constant) and isinstance(e.slice.value, int):
@@ -571,6 +577,8 @@ class ActionKinds:
                     if el is not None and el.known and not el.kinds <= {'str'}:
                         sink('R5', e, f'`{norm(e)[:70]}`: str.join over elements of kind {el!r}: a non-string element (the Star of `a.*`) raises TypeError')
                 if m in STR_METHODS:
+                    if base.tok is not None and m in ('lower', 'upper', 'strip', 'lstrip', 'rstrip', 'title', 'capitalize'):
+                        return V(['str'], tok='~' + base.tok.lstrip('~'))          # still text the user wrote, transformed ('~' = derived from token text)
                     return vk('str')
                 if m in ('split', 'splitlines', 'rsplit'):
                     return V(['list'], vk('str'), nonempty=True)
@@ -728,6 +736,14 @@ class ActionKinds:
                     s2 = dict(st)
                     ks = dict(s2.get('#keys', {}))
                     ks[norm(r)] = set(ks.get(norm(r), ())) | {l.value}
+                    s2['#keys'] = ks
+                    return s2
+            elif isinstance(op, (ast.In, ast.NotIn)):
+                # `key_expr in table`: the same key expression may then be looked up in that table
+                if isinstance(op, ast.In) == branch:
+                    s2 = dict(st)
+                    ks = dict(s2.get('#keys', {}))
+                    ks[norm(r)] = set(ks.get(norm(r), ())) | {'#expr:' + norm(l)}
                     s2['#keys'] = ks
                     return s2
             return st
